@@ -1080,6 +1080,11 @@ def gen_recrec_case(rng):
         o = ("comp", o, nx)
     if entry == "dom":
         o = strip_ctr(o)
+    fo = flat_obs(o)
+    if "patrest" in fo and any(x in MERGE_OBS for x in fo):
+        # the rest of a record pattern drops a field the others may refer to; a later merge re-evaluates
+        # them with that name unbound (nickel: unbound identifier, with or without annotation)
+        return gen_recrec_case(rng)
     return {"kind": "recrec", "k": k, "T": T, "o": o, "pos": pos, "special": special, "entry": entry, "alias": entry == "dom",
             "elem": elem, "leaf": leaf}
 
@@ -1438,6 +1443,11 @@ def run_cases(ck, cases, exe_model, impl_model_exe=None):
             ck.count("missing_outputs")       # a shard died / timed out: reported by correspondence-run above
             continue
         a, u = canon_impl(a), canon_impl(u)
+        if a == "ERR UnboundId" and u == "ERR UnboundId":
+            # not a contract matter: `{a = .., d = a} |> match { {a = v, ..rest} => rest }` drops `a`, and a
+            # later merge re-evaluates `d` with `a` unbound - with or without annotation (reported, not modelled)
+            ck.count("rest_pattern_then_merge_unbound")
+            continue
         viol = violates(c)
         pr = py_reach(whole_container(c), c["o"], c["pos"])      # pos None: no marker, only "maybe" / None / False
         key = case_program(c)
@@ -1471,10 +1481,13 @@ def run_cases(ck, cases, exe_model, impl_model_exe=None):
                 direct_bad = "the %s component at %s is reached but observe (v | T) = %s (expected %s)" % (
                     "failing" if c["special"] == FAIL else "violating", c["pos"], a, expected_error(c))
         elif viol and pr == "maybe":
-            if u == expected_error(c) and a != u:
-                ck.count("order_dependent_unchecked")   # the two runs legitimately took different orders
-            elif a != u and a != expected_error(c):
-                direct_bad = "observe (v | T) = %s is neither the component's error %s nor observe v = %s" % (a, expected_error(c), u)
+            # whether the component is reached depends on the order in which == / force visit the fields
+            # (and record annotations rebuild the record in another order): the annotated and the
+            # unannotated run may legitimately differ, e.g. one meets the component, the other an
+            # unrelated failing field.  The property fixes no outcome here; only the model comparison
+            # below applies.
+            if a != u and a != expected_error(c):
+                ck.count("order_dependent_unchecked")
         elif pr == "maybe":
             # nothing violates, but the outcome depends on the order in which == / force visit the
             # fields, and record annotations rebuild the record in another order
